@@ -1196,3 +1196,22 @@ def is_some_of(facts, body):
         elif cstr(X) != cstr(x):
             return None
     return canon(X) if X is not None and len(rows) >= 2 else None
+
+
+def strip_old(t):
+    """Drop the 'value on arrival at the loop' marks: for memory that the rule knows the loop does not change."""
+    if not isinstance(t, tuple):
+        return t
+    if t[0] == 'old':
+        return strip_old(t[1])
+    out = []
+    for x in t:
+        if isinstance(x, tuple):
+            out.append(strip_old(x))
+        elif isinstance(x, list):
+            out.append([strip_old(y) if isinstance(y, tuple) else y for y in x])
+        elif isinstance(x, dict):
+            out.append({k: (strip_old(v) if isinstance(v, tuple) else v) for k, v in x.items()})
+        else:
+            out.append(x)
+    return tuple(out)
